@@ -1,6 +1,7 @@
 package main
 
 import (
+	"bytes"
 	"crypto"
 	_ "crypto/md5"
 	_ "crypto/sha1"
@@ -94,6 +95,16 @@ func recC14(c *ctx) {
 	xmd := func(h hf, dst, msg []byte, n int) {
 		out := make([]byte, n)
 		var err error
+		// DST and message as ADJACENT sub-slices of one caller buffer (the DST has spare capacity whose first byte is the
+		// first message byte, the message is followed by live data): the library must not write into either
+		frame := append(append(append([]byte(nil), dst...), msg...), 0xa5, 0x5a, 0xa5, 0x5a)
+		dst, msg = frame[:len(dst)], frame[len(dst):len(dst)+len(msg)]
+		before := append([]byte(nil), frame...)
+		defer func() {
+			if !bytes.Equal(before, frame) {
+				c.w.Emit(vt.Ev{"op": "argscorrupt", "cfg": c.cfg, "during": "ExpandMessageXMD", "hash": h.name, "dstlen": len(dst), "msglen": len(msg), "n": n, "sha": []vt.Ev{}})
+			}
+		}()
 		if !c.try("ExpandMessageXMD", vt.Ev{"hash": h.name, "n": n, "dstlen": len(dst)}, func() { err = h2c.ExpandMessageXMD(out, h.h, dst, msg) }) {
 			return
 		}
@@ -117,6 +128,14 @@ func recC14(c *ctx) {
 			inst.Write([]byte("left over from an earlier use"))
 		}
 		var err error
+		frame := append(append(append([]byte(nil), dst...), msg...), 0xa5, 0x5a, 0xa5, 0x5a)
+		dst, msg = frame[:len(dst)], frame[len(dst):len(dst)+len(msg)]
+		before := append([]byte(nil), frame...)
+		defer func() {
+			if !bytes.Equal(before, frame) {
+				c.w.Emit(vt.Ev{"op": "argscorrupt", "cfg": c.cfg, "during": "ExpandMessageXOF", "xof": name, "dstlen": len(dst), "msglen": len(msg), "n": n, "sha": []vt.Ev{}})
+			}
+		}()
 		if !c.try("ExpandMessageXOF", vt.Ev{"xof": name, "n": n, "dstlen": len(dst)}, func() { err = h2c.ExpandMessageXOF(out, inst, dst, msg) }) {
 			return
 		}
@@ -203,6 +222,10 @@ func recC14(c *ctx) {
 	for i := 0; i < n; i++ {
 		dst := r.Bytes([]int{1, 16, 40, 255, 256}[r.Intn(5)])
 		msg := r.Bytes(r.Intn(60))
+		// adjacent sub-slices of one caller buffer (see xmd above)
+		frame := append(append(append([]byte(nil), dst...), msg...), 0xa5, 0x5a, 0xa5, 0x5a)
+		dst, msg = frame[:len(dst)], frame[len(dst):len(dst)+len(msg)]
+		before := append([]byte(nil), frame...)
 		t := &htab{}
 		e := vt.Ev{"op": "suite", "cfg": c.cfg, "dst": vt.B(dst), "msg": vt.B(msg)}
 		var enc []byte
@@ -283,6 +306,9 @@ func recC14(c *ctx) {
 			e["out"] = vt.B(enc)
 		}
 		c.w.Emit(e)
+		if !bytes.Equal(before, frame) {
+			c.w.Emit(vt.Ev{"op": "argscorrupt", "cfg": c.cfg, "during": "suite", "i": i % 8, "sha": []vt.Ev{}})
+		}
 	}
 }
 
